@@ -26,6 +26,9 @@ BOUNDED = {
     "C12": [
         {"name": "c12_trees", "script": "c12_trees.py", "args": []},
     ],
+    "C18": [
+        {"name": "c18_worktree", "script": "c18_worktree.py", "args": []},
+    ],
     "C13": [
         {"name": "c13_graphs", "script": "c13_graphs.py", "args": []},
     ],
